@@ -1,6 +1,8 @@
 package main
 
 import (
+	"runtime"
+	"sync"
 	"fmt"
 	"strings"
 
@@ -127,7 +129,59 @@ func runQuoteCase(c *Ctx, st string, q rune, what string, text []rune) {
 	c.model(op, impl, "model")
 }
 
+// tens of millions of DIFFERENT literals of one length decoded on ONE long-lived state (from all cores): each answer is the
+// literal without its quotes - whatever the state remembered of the literals before (a lossy memo keyed by a 32-bit
+// digest shows up after a few million)
+func propC14Bulk(c *Ctx, st string, n int) {
+	op := fmt.Sprintf("quotebulk %s %d", st, n)
+	c.record(op, true)
+	c.count("bulk-decodes-on-one-state")
+	qs := quoteState(st)
+	workers := runtime.NumCPU()
+	bad := make(chan string, workers)
+	var wg sync.WaitGroup
+	for w := 0; w < workers; w++ {
+		wg.Add(1)
+		go func(w int) {
+			defer wg.Done()
+			defer func() {
+				if r := recover(); r != nil {
+					bad <- fmt.Sprint("panic: ", r)
+				}
+			}()
+			buf := make([]byte, 0, 32)
+			for i := 0; i < n/workers; i++ {
+				buf = buf[:0]
+				buf = append(buf, '\'', 'o', 'r', 'd', 'e', 'r', ' ', byte('a'+w))
+				x := i
+				for k := 0; k < 6; k++ {
+					buf = append(buf, byte('a'+x%26))
+					x /= 26
+				}
+				buf = append(buf, '\'')
+				lit := string(buf)
+				if got := qs.DecodeString(lit, '\''); got != lit[1:len(lit)-1] {
+					bad <- fmt.Sprintf("literal #%d of worker %d: %s decodes to %q", i, w, lit, got)
+					return
+				}
+			}
+		}(w)
+	}
+	wg.Wait()
+	close(bad)
+	if msg, ok := <-bad; ok {
+		c.fail(Failure{Kind: "oracle", Op: op, Impl: msg, Note: fmt.Sprintf("%d different literals decoded on one state: %s", n, msg)})
+	}
+}
+
 func propC14(c *Ctx) {
+	bulk := 1 << 25
+	if c.Thorough {
+		bulk = 1 << 27
+	}
+	for _, st := range []string{"e", "c", "g"} {
+		propC14Bulk(c, st, bulk)
+	}
 	states := []string{"g", "e", "c"}
 	quotes := []rune{'\'', '"', 0xab, 0x201c, 0x100, 0xff, 0x101, 0x1f600, 0xfffd, '`', '\\', ' ', '\t', 'a', '0', ','}
 	maxL := 4
@@ -202,6 +256,12 @@ func propC14(c *Ctx) {
 
 func replayC14(c *Ctx, op string) {
 	f := strings.Fields(op)
+	if len(f) == 3 && f[0] == "quotebulk" {
+		var n int
+		fmt.Sscanf(f[2], "%d", &n)
+		propC14Bulk(c, f[1], 2*n) // a statistical finding: the replay decodes twice as many
+		return
+	}
 	if len(f) != 5 {
 		return
 	}
